@@ -22,8 +22,7 @@
    Monitor (VERIF-BAD): every recv / timer step is the RFC 5880 6.8.6 transition (BFDOps!Rfc), RFC
    admission rules, sent packets carry the local state (and a Your Discriminator when Init / Up),
    expiry happens, the session is Up after the quiet period.  Timing is not judged: a timer step is
-   accepted at any point.  Details outside the property (clearing the remote discriminator on expiry,
-   packets using unsupported features, the table's own AdminDown/AdminUp events) are VERIF-DRIFT. *)
+   accepted at any point.  Details outside the property (packets using unsupported features, the table's own AdminDown/AdminUp events) are VERIF-DRIFT. *)
 EXTENDS BFDOps, TLC, Json
 
 Trace == ndJsonDeserialize("trace.ndjson")
@@ -121,8 +120,11 @@ Timer == LET got == StateName(R.local)
            THEN Bad("timer:expired-before-detection-time:" \o MultClass)
          ELSE IF R.el >= 0 /\ det.ms >= 0 /\ R.el > det.ms + LateSlackMs
            THEN Bad("timer:expired-long-after-detection-time:" \o MultClass)
+         \* RFC 5880 6.8.1: bfd.RemoteDiscr MUST be set to zero when a detection time passes without a packet,
+         \* in whatever state: a session that keeps echoing the old value is never answered by a restarted
+         \* peer that waits (passive role) for a packet it can accept
+         ELSE IF R.rdisc # 0 THEN Bad("timer:remote-discriminator-not-cleared:local=" \o got)
          ELSE /\ local' = got /\ rd' = R.rdisc /\ det' = NoDet
-              /\ Drift(R.rdisc = 0, "timer:remote-discriminator-not-cleared")
               /\ UNCHANGED <<pend, cfg, idle, failed>>
 
 Send == IF StateName(R.state) # local
